@@ -54,6 +54,28 @@ fn main() {
         }
         return;
     }
+    if args.get(1).map(|s| s.as_str()) == Some("leapscan") {
+        // first ISO day of every leap month code of the chinese and dangi calendars (alphabet selection for C16)
+        use std::str::FromStr;
+        for cal_id in ["chinese", "dangi"] {
+            let cal = temporal_rs::Calendar::from_str(cal_id).unwrap();
+            let mut seen: std::collections::BTreeMap<String, (i64, u8, u8)> = Default::default();
+            let mut e = tmc_ref::r1::days_from_civil(1000, 1, 1);
+            let end = tmc_ref::r1::days_from_civil(3000, 1, 1);
+            while e < end {
+                let (y, m, d) = tmc_ref::r1::civil_from_days(e);
+                if let Ok(date) = temporal_rs::PlainDate::try_new(y as i32, m, d, cal.clone()) {
+                    let code = date.month_code().as_str().to_string();
+                    if code.ends_with('L') && !seen.contains_key(&code) {
+                        seen.insert(code, (y, m, d));
+                    }
+                }
+                e += 14;
+            }
+            println!("{cal_id}: {seen:?}");
+        }
+        return;
+    }
     if args.get(1).map(|s| s.as_str()) == Some("bench") {
         bench::bench();
         return;
